@@ -168,3 +168,22 @@ package font
 //@   mode int
 //@   assert_at call ParseHmtx#1 : [non-negative-counts] leftSideBearingsCount >= 0 && int(hhea.NumOfLongMetrics) >= 0
 //@   modifies unspecified
+//
+// NormalizeVariations (C09): total for the documented precondition (one coordinate per fvar axis) given what NewFont
+// establishes (one avar segment map per fvar axis, or none).
+//@ func Font.NormalizeVariations C09c
+//@   mode int
+//@   requires [one-coordinate-per-axis] len(coords) == len(f.fvar)
+//@   requires [avar-consistent] len(f.avar.AxisSegmentMaps) == len(f.fvar) || len(f.avar.AxisSegmentMaps) == 0
+//@   modifies unspecified
+//@   loop 1 invariant [shape] len(normalized) == len(coords) && fresh(normalized)
+//@   loop 2 invariant [shape] len(normalized) == len(coords) && fresh(normalized) && 1 <= j && sameslice(l, av.AxisValueMaps) && 0 <= i && i < len(f.avar.AxisSegmentMaps)
+//@ trusted std:math.Round
+//@   params x
+//@   modifies nothing
+//@ func fvar.normalizeCoordinates C09c
+//@   mode int
+//@   requires [one-coordinate-per-axis] len(coords) >= len(fv)
+//@   ensures [one-per-coordinate] len(result) == len(coords) && fresh(result)
+//@   modifies nothing
+//@   loop 1 invariant [shape] len(normalized) == len(coords) && fresh(normalized)
